@@ -37,9 +37,23 @@ type fataler interface {
 	Fatalf(format string, args ...any)
 }
 
+var twin = gen.Twin{New: func() func() bool {
+	p := json.NewParser(parse.NewInputString(`{"a":[1,{"b":"c\\\"d"},[[]],true],"e":{"f":null},"g":-1.5e3}`))
+	return func() bool { gt, _ := p.Next(); _ = p.State(); return gt != json.ErrorGrammar }
+}}
+
+const jsonTail = `,"x":[1]}]`
+
 func run(t fataler, src string) ([]unit, string, error) {
-	in := []byte(src)
-	p := json.NewParser(parse.NewInputBytes(in))
+	in, whole := gen.Embedded([]byte(src), jsonTail)
+	input := parse.NewInputBytes(in)
+	defer func() {
+		input.Restore()
+		if ok, rest := gen.CheckEmbedded(in, whole, jsonTail, true); !ok || string(in) != src {
+			t.Fatalf("parsing %q changed the caller's buffer: %q + %q", src, in, rest)
+		}
+	}()
+	p := json.NewParser(input)
 	var units []unit
 	var out strings.Builder
 	var stack []byte // '[' or '{'
@@ -53,9 +67,11 @@ func run(t fataler, src string) ([]unit, string, error) {
 			t.Fatalf("parser does not terminate on %q", src)
 		}
 		gt, data := p.Next()
+		twin.Step()
 		if gt == json.ErrorGrammar {
 			return units, out.String(), p.Err()
 		}
+		_ = p.Err() // polled after every call: reading the error state must not disturb the parser
 		units = append(units, unit{gt, string(data)})
 		top := byte(0)
 		if len(stack) > 0 {
